@@ -736,12 +736,20 @@ class Inliner:
                     elif isinstance(sub, (ast.FunctionDef, ast.AsyncFunctionDef)):
                         self.prog._index_stmt(fi.module, sub, None, fi)
         # helpers whose every use was expanded are absorbed by their callers: they are not analysed on their own
-        for q in unknown:
+        changed = True
+        while changed:
+          changed = False
+          for q in unknown:
             h = self.prog.functions[q]
+            if getattr(h, "absorbed", False):
+                continue
             name = h.name
             used = False
             for q2, f2 in self.prog.functions.items():
                 if f2 is h or (q2 not in self.known and q2.startswith(q + ".")):
+                    continue
+                if getattr(f2, "absorbed", False):
+                    # a use inside a helper that itself lives on only in its callers is not a use
                     continue
                 for n in ast.walk(f2.node):
                     if isinstance(n, ast.Attribute) and n.attr == name:
@@ -768,6 +776,7 @@ class Inliner:
                     break
             if not used and self.expanded.get(q):
                 h.absorbed = True
+                changed = True
                 for nf in h.nested.values():
                     nf.absorbed = True
                 # the class no longer "has" the method as far as the rules are concerned: its code lives in the callers now
